@@ -3,8 +3,11 @@ package main
 import (
 	"bufio"
 	"bytes"
+	"reflect"
 	"strings"
 	"sync"
+
+	"github.com/bobertlo/gmars"
 )
 
 // runConc: kind 14 = [threads; reps; inner case...]: the inner case (an assembly or a battle)
@@ -28,6 +31,21 @@ func runConc(e *emitter, c []int64) {
 	runCase(&emitter{w: bw, first: true}, alone)
 	bw.Flush()
 	baseline := stripVolatile(bbuf.String())
+	// battles: one set of warrior data for all goroutines - they share only configuration
+	// values and warrior data; afterwards it must be what it was
+	var shared, before []*gmars.WarriorData
+	if len(inner) > 1 && inner[0] == 1 {
+		if bc, ok := rdBcase(inner[1:]); ok && bc.flags&128 == 0 {
+			for i := range bc.ws {
+				d := &gmars.WarriorData{Code: bc.ws[i].code, Start: bc.ws[i].start}
+				if i%2 == 1 {
+					d.Name, d.Author, d.Strategy = "w", "a", "s"
+				}
+				shared = append(shared, d)
+				before = append(before, d.Copy())
+			}
+		}
+	}
 	results := make([]string, reps)
 	var wg sync.WaitGroup
 	sem := make(chan struct{}, threads)
@@ -39,7 +57,7 @@ func runConc(e *emitter, c []int64) {
 			defer func() { <-sem }()
 			var buf bytes.Buffer
 			w := bufio.NewWriter(&buf)
-			e2 := &emitter{w: w, first: true}
+			e2 := &emitter{w: w, first: true, shared: shared}
 			runCase(e2, inner)
 			w.Flush()
 			results[i] = stripVolatile(buf.String())
@@ -58,6 +76,15 @@ func runConc(e *emitter, c []int64) {
 		}
 	}
 	e.rec(94, same)
+	if shared != nil {
+		unchanged := int64(1)
+		for i := range shared {
+			if !reflect.DeepEqual(shared[i], before[i]) {
+				unchanged = 0
+			}
+		}
+		e.rec(95, unchanged)
+	}
 	// re-emit the first result
 	for _, part := range strings.Split(results[0], " | ") {
 		part = strings.TrimSpace(part)
